@@ -9,6 +9,7 @@ import (
 	"runtime"
 	"sort"
 	"strings"
+	"sync"
 	"time"
 
 	"github.com/virus-evolution/gofasta/pkg/variants"
@@ -25,7 +26,7 @@ func init() {
 	fw.Register(&fw.Property{
 		ID:    "C12",
 		Level: "exploration",
-		Rule: "for each command (sam toMultiAlign, toPairAlign directory and stdout, sam variants, variants file and stdin mode, snps, closest plain and -n, updown list, updown topranking fasta/csv/dist-push; per-sequence and --aggregate forms) an input with many records and tie-rich content is run once as baseline (threads 1, no jitter) and then re-run under thread counts {1,2,3,5,8,16}, GOMAXPROCS {1,2,4,16}, seeded scheduling jitter at the worker->writer boundaries and plain repeats; outputs must be byte-identical and the race detector silent (harness and gofasta built -race); " +
+		Rule: "for each command (sam toMultiAlign, toPairAlign directory and stdout, sam variants, variants file and stdin mode, snps, closest plain and -n, updown list, updown topranking fasta/csv/dist-push; per-sequence and --aggregate forms) an input with many records and tie-rich content is run once as baseline (threads 1, no jitter) and then re-run under thread counts {1,2,3,5,8,16}, GOMAXPROCS {1,2,4,16}, seeded scheduling jitter at the worker->writer boundaries, plain repeats and, for the binary jobs, a burst of 24 (thorough: 48) processes of the same command started together; outputs must be byte-identical and the race detector silent (harness and gofasta built -race); " +
 			"distinct non-trivial = distinct (command, threads, GOMAXPROCS, jitter on/off) perturbations whose execution showed at least one completion-order inversion at a hook site or ran a multi-goroutine pipeline",
 		Assumptions: []string{"interleavings and map orders are sampled, not enumerated; the evidence counts the distinct completion permutations and inversions actually observed at each hook site",
 			"the race detector only sees races on executed paths"},
@@ -563,6 +564,52 @@ func runC12Binary(c *fw.Ctx, r *fw.Rng, kind, idx int, res *fw.Result) fw.Result
 			f["perturbed_stdout.txt"] = string(br.Stdout)
 			res.Fail("nondeterministic-output:"+name, fmt.Sprintf("%s: stdout with threads=%d GOMAXPROCS=%d jitter=%d differs from the baseline: %s", name, t, p, j, firstDiff(string(base.Stdout), string(br.Stdout))), f, argv)
 			break
+		}
+	}
+	// a burst of the same command started at once as separate processes (a pipeline step run for many
+	// samples in parallel on one node): each process is descheduled at arbitrary points by the
+	// kernel, every one of them must still write the baseline's bytes. The plain binary is used:
+	// the point is natural timing under contention, not race reports.
+	if len(res.Viol) == 0 && c.Bin != "" {
+		B := 24
+		if c.Thorough() {
+			B = 48
+		}
+		type burstOut struct {
+			br    fw.BinResult
+			procs int
+		}
+		outs := make([]burstOut, B)
+		var wg sync.WaitGroup
+		for i := 0; i < B; i++ {
+			wg.Add(1)
+			go func(i int) {
+				defer wg.Done()
+				procs := []int{2, 0, 2, 4}[i%4]
+				var e []string
+				if procs > 0 {
+					e = []string{fmt.Sprintf("GOMAXPROCS=%d", procs)}
+				}
+				outs[i] = burstOut{fw.RunBin(c.Bin, withT([]int{1, 2, 8}[i%3]), stdin, e, "", 60*time.Second), procs}
+			}(i)
+		}
+		wg.Wait()
+		res.Evals += B
+		res.Count("binary_executions_in_concurrent_bursts", B)
+		for i, o := range outs {
+			argv := append([]string{fmt.Sprintf("GOMAXPROCS=%d", o.procs), fmt.Sprintf("process %d of %d started together", i+1, B)}, withT([]int{1, 2, 8}[i%3])...)
+			if o.br.TimedOut {
+				binHang(res, o.br, name+" (concurrent burst)", files, argv)
+				break
+			}
+			if o.br.Exit != 0 || !bytes.Equal(o.br.Stdout, base.Stdout) {
+				f := cloneFiles(files)
+				f["baseline_stdout.txt"] = string(base.Stdout)
+				f["perturbed_stdout.txt"] = string(o.br.Stdout)
+				f["stderr.txt"] = clipStr(string(o.br.Stderr), 4000)
+				res.Fail("nondeterministic-output:"+name, fmt.Sprintf("%s: one of %d processes started together (GOMAXPROCS=%d, exit %d) wrote bytes that differ from the baseline: %s", name, B, o.procs, o.br.Exit, firstDiff(string(base.Stdout), string(o.br.Stdout))), f, argv)
+				break
+			}
 		}
 	}
 	// race reports of the binary
